@@ -352,5 +352,16 @@ def gen_scalar_problem(rng, kind="fee", axi=None, units=None, size_nodes=60, all
                 B.prop("pointprops", name="pt", V=0.0, q=rng.choice([2.0, -1.0]))
         B.point(px, py, prop=pp)
         feats.append("point")
+        # the same point property on drawn points that may be constrained already: a corner of the outer rectangle (the end
+        # point of boundary segments, some of them with a prescribed value) and a corner of the inner box (conductor / fixed
+        # boundary); a point source on a constrained node must leave the prescribed value alone
+        is_source = p["pointprops"][pp - 1].get("q", 0.0) != 0.0      # (a second prescribed VALUE on a constrained node would be contradictory input)
+        if is_source and rng.random() < 0.6:
+            p["points"][rng.randrange(4)]["prop"] = pp
+            feats.append("point-on-outer-corner")
+        if is_source and ("box:cfix" in feats or "box:cfloat" in feats or "box:hole-fix" in feats):
+            if rng.random() < 0.6:
+                p["points"][-2 - rng.randrange(4)]["prop"] = pp
+                feats.append("point-on-box-corner")
     p["features"] = feats + ["axi" if axi else "planar", p["units"]] + [c or "none" for c in picked]
     return p
